@@ -144,7 +144,9 @@ def run(ctx):
                 # presorted on pre-sorted input
                 if skey is not None:
                     sk = None if skey == () else skey
-                    ptabs = [[list(r) for r in etl.sort(t, sk)] for t in tabs]      # list rows: what is delivered must not be the source's own row
+                    # list rows next to tuple rows: what is delivered must not be the source's own row, and equal rows of different row types are one row
+                    ptabs = [[(list(r) if j % 2 else tuple(r)) for j, r in enumerate(etl.sort(t, sk))] for t in tabs]
+                    ptabs = [[list(t_[0])] + t_[1:] for t_ in ptabs]
                     pdefault = util.run_show_typed(lambda: call(*ptabs))
                     out = util.run_show_typed(lambda: call(*ptabs, presorted=True))
                     ctx.case((name, 'presorted', repr(ptabs)) if nt else None)
@@ -198,6 +200,9 @@ def run(ctx):
                         elif cache and (second != first or pulled != 0):
                             ctx.spec_fail('%s|cache=True|%s' % (name, 're-reads' if pulled else 'differs'),
                                           '%s(cache=True): a pass after a completed one is not a replay without reading the sources' % name, case)
+        # ---- hundreds to thousands of chunk files, also under a lowered limit on open files (a guard against too many open
+        # files must not reorder ties)
+        util.many_chunk_cases(etl, rng, ctx, 'sort', ctx.thorough())
         # ---- the cache machine vs the real SortView (exact): pass / edit sequences
         for ci in range(40 if not ctx.thorough() else 300):
             T = mk_table(rng)
